@@ -514,7 +514,12 @@ func convSym(t_dst, t_src types.Type, x value) (value, bool) {
 			if sym {
 				if st, ok := t_src.Underlying().(*types.Slice); ok {
 					if b, ok := st.Elem().Underlying().(*types.Basic); ok && b.Kind() == types.Int32 {
-						unsupported("string([]rune) with symbolic runes")
+						// string([]rune): concatenate the encodings (each symbolic rune forks on its length)
+						var out value = ""
+						for _, r := range x {
+							out = concatStr(out, conv(t_dst, types.Typ[types.Rune], r))
+						}
+						return out, true
 					}
 				}
 				return normStr(symstr(append([]value(nil), x...))), true
